@@ -261,7 +261,7 @@ func TestC05(t *testing.T) {
 		}
 		return sb.String()
 	})
-	col.Rapid(scan.Sub, env.PerShard(env.Pick(20000, 1000000)), func(t *rapid.T) {
+	col.Rapid(scan.Sub, env.PerShard(env.Pick(100000, 1500000)), func(t *rapid.T) {
 		c := &c05ScanCase{S: genSrc.Draw(t, "s"), Start: rapid.SampledFrom([]int{0, 1, 7, 1000}).Draw(t, "start")}
 		if v := scan.Run(c); v != nil {
 			t.Fatalf("%s", v.Message)
@@ -287,7 +287,7 @@ func TestC05(t *testing.T) {
 	}
 	bodies(nil, env.Pick(4, 5))
 	bodyFrag := []string{"{{ n }}", "{{ n | no_such_filter }}", "{{ 1 | divided_by: 0 }}", "{% if %}", "{% nosuchtag %}", "{% for %}", "{% endif %}", "{% else %}", "{{ a b c }}", "{% assign x = %}", "text", " ", "\n", "é", "{%- x -%}", "{{- n -}}", "{% if true %}", "{% raw %}", "{% comment %}", "{{ 'a' }}", "}}", "%}", "-"}
-	col.Rapid(blk.Sub, env.PerShard(env.Pick(10000, 500000)), func(t *rapid.T) {
+	col.Rapid(blk.Sub, env.PerShard(env.Pick(60000, 800000)), func(t *rapid.T) {
 		c := &c05BlockCase{Kind: rapid.SampledFrom([]string{"raw", "comment"}).Draw(t, "kind"),
 			X: rapid.SampledFrom([]string{"", "x", "line\n", " ", "}} %}"}).Draw(t, "x"),
 			B: strings.Join(rapid.SliceOfN(rapid.SampledFrom(bodyFrag), 0, 8).Draw(t, "b"), ""),
@@ -299,7 +299,7 @@ func TestC05(t *testing.T) {
 
 	val := c05Value.On(col, "rapid: string values - arbitrary bytes, valid UTF-8, HTML/URL specials, delimiter text ({{ x }}, {% raw %}), white space at the edges, up to 64 KiB - printed by an object directly and after a nested lookup, assign and capture; oracle: emitted exactly. Non-trivial: non-empty; distinct by value", false)
 	vfrag := []string{"<", ">", "&", "\"", "'", "{{ x }}", "{% raw %}", "%}", " ", "\n", "\t", "é", "😀", "\x00", "\xff\xfe", "&amp;", "%20", "\\", "a"}
-	col.Rapid(val.Sub, env.PerShard(env.Pick(8000, 300000)), func(t *rapid.T) {
+	col.Rapid(val.Sub, env.PerShard(env.Pick(40000, 400000)), func(t *rapid.T) {
 		var v string
 		if rapid.Bool().Draw(t, "bytes") {
 			v = string(rapid.SliceOfN(rapid.Byte(), 0, rapid.SampledFrom([]int{8, 64, 2000, 65536}).Draw(t, "max")).Draw(t, "raw"))
